@@ -95,6 +95,14 @@ type funcRun struct {
 	tokenWg Term
 	entryHeld Term
 	entryArrays map[string]Term
+	shared      []sharedRef
+}
+
+type sharedRef struct {
+	name  string
+	ref   Term // map reference or backing array of the slice
+	slice bool
+	lock  Term
 }
 
 type siteInfo struct {
